@@ -15,6 +15,7 @@ import (
 	"context"
 	"encoding/json"
 	"fmt"
+	"os"
 	"strings"
 	"time"
 
@@ -106,6 +107,9 @@ func judgeWhole(args, real, _ json.RawMessage) *core.Verdict {
 		}
 	}
 	v, l := parseOutcome(r.Var), parseOutcome(r.Lit)
+	if os.Getenv("C08_DEBUG") != "" {
+		fmt.Fprintf(os.Stderr, "WHOLE\tvar=%v lit=%v\n", v.isOk(), l.isOk())
+	}
 	lab := "combination"
 	if len(a.Labels) == 1 {
 		lab = a.Labels[0]
@@ -246,6 +250,9 @@ func judgeOnOff(args, real, _ json.RawMessage) *core.Verdict {
 		}
 	}
 	on, off := parseOutcome(r.On), parseOutcome(r.Off)
+	if os.Getenv("C08_DEBUG") != "" {
+		fmt.Fprintf(os.Stderr, "ONOFF\ton=%v off=%v\n", on.isOk(), off.isOk())
+	}
 	if !on.isOk() {
 		// off may load where on fails (Canonical forgives unparsable short forms under SkipInterpolation): not this theorem
 		return core.Skip("does not load with interpolation on")
